@@ -1480,6 +1480,23 @@ def run_session(ctx, drv, label, calls, skind):
     return ok_all, secs
 
 
+def check_c16_agreement(ctx):
+    """the classes C16's extractor (harness/c16.py, every store through `self` on the query path) vouches
+    stateless must carry nothing in this check's table either (C05 lists fewer stores by design: only
+    those that are read back on the query path): two independent extractors, one fact"""
+    try:
+        from . import c16
+        theirs = c16.extract_facts()["presets"]
+    except Exception as e:  # noqa: BLE001 -- C16's module is not ours; its absence is not a verdict
+        ctx.notes["c16_extractor"] = "not available: %r" % (e,)
+        return
+    mine = c05_presets.extract()["carried"]
+    bad = {c: [theirs[c], mine.get(c)] for c in theirs if c in mine and (mine[c] and not theirs[c])}
+    ctx.notes["c16_extractor"] = {"c16": theirs, "c05": {c: mine.get(c) for c in theirs}}
+    ctx.obligation("preset classes C16's extractor finds store-free carry nothing in C05's preset table", not bad,
+                   json.dumps(bad)[:300])
+
+
 def check_sessions(ctx, drv, rng, budget_s, rounds):
     """sequences through every registered preset string and through explicit paths, each in a
     pristine process image"""
@@ -1934,6 +1951,7 @@ def run(ctx, drv):
     _CALLED_INTO_COTENGRA[0] = True
     rng = ctx.rng
     quick = ctx.tier == "quick"
+    check_c16_agreement(ctx)
     check_sessions(ctx, drv, rng, budget_s=(75 if quick else 600), rounds=(2 if quick else 12))
     replay_corpus(ctx)
     for _ in range(600 if quick else 6000):
